@@ -43,7 +43,7 @@ Arguments EErr {C}.
 Arguments EStuck {C}.
 
 (** result of [get_or_insert] / [reduce] *)
-Inductive kres : Type :=
+Inductive krres : Type :=
 | KOk (s : cst) (e : edge)
 | KErr (s : cst)
 | KStuck.
@@ -51,7 +51,7 @@ Inductive kres : Type :=
 (** owned locals of an activation; [true] = inside an `EdgeDropGuard` *)
 Definition eframe := list (edge * bool).
 
-Definition enot (e : edge) : edge := mkEdge (eref e) (negb (etag e)).
+Definition eflip (e : edge) : edge := mkEdge (eref e) (negb (etag e)).
 
 Section K.
 Variable k : kind.
@@ -94,16 +94,16 @@ Definition e_not (s : cst) (e : edge) : option cst :=
   match eref e with
   | RT _ => Some s
   | RN _ =>
-    if edge_ok_b k terms (cn s) (enot e) then
+    if edge_ok_b k terms (cn s) (eflip e) then
       match take_tok (tid, e) (cown s) with
-      | Some own' => Some (mkCst (cn s) ((tid, enot e) :: own'))
+      | Some own' => Some (mkCst (cn s) ((tid, eflip e) :: own'))
       | None => None
       end
     else None
   end.
 
 (** `LevelView::get_or_insert(InnerNode::new(lvl, [t, e]))` *)
-Definition e_goi (s : cst) (lvl : nat) (t e : edge) : kres :=
+Definition e_goi (s : cst) (lvl : nat) (t e : edge) : krres :=
   let ch := [t; e] in
   if node_pre_b k terms nl (cn s) lvl ch then
     match take_toks tid ch (cown s) with
@@ -196,7 +196,7 @@ Definition eguarded (lt : bool) (x : edge) (o : eres C) : eres C :=
   end.
 
 (** a `get_or_insert` / `reduce` result followed by `?`, the cache insertion, `Ok(h)` *)
-Definition efin (r : kres) (c : C) (upd : edge -> C) : eres C :=
+Definition efin (r : krres) (c : C) (upd : edge -> C) : eres C :=
   match r with
   | KOk s h => EOk s (upd h) h
   | KErr s => eerr s c []
